@@ -191,6 +191,9 @@ fn operands(ms: &BTreeSet<u64>, tier: Tier) -> Vec<(u64, String)> {
 
 struct Job {
     prim: Prim,
+    /// index of the primitive: all chunks of one primitive go to the same shard, because the operand
+    /// list is derived from values measured in the shard's own sandbox (ctimes differ between shards)
+    prim_index: usize,
     ops: Vec<(u64, String)>,
 }
 
@@ -200,12 +203,12 @@ fn entries_of(dir: &str) -> Vec<(String, St)> {
 
 fn jobs(tier: Tier) -> Vec<Job> {
     let mut out = vec![];
-    for prim in prims() {
+    for (prim_index, prim) in prims().into_iter().enumerate() {
         let ents = entries_of(prim.dir);
         let ms: BTreeSet<u64> = ents.iter().filter_map(|(_, s)| measured(prim.kind, s, now_of())).collect();
         let ops = operands(&ms, tier);
         for chunk in ops.chunks(24) {
-            out.push(Job { prim: prim.clone(), ops: chunk.to_vec() });
+            out.push(Job { prim: prim.clone(), prim_index, ops: chunk.to_vec() });
         }
     }
     out
@@ -245,6 +248,12 @@ fn run_job(ctx: &mut Ctx, job: &Job) -> Vec<(String, String, Value)> {
             return bad;
         }
     };
+    if !matches!(job.prim.kind, MKind::Age(..)) && job.ops.len() % 5 == 4 {
+        match lb::cross_check(&sel) {
+            Ok(()) => ctx.rep.traces_validated += 1,
+            Err(e) => ctx.rep.machinery(e),
+        }
+    }
     if sel.out.code != Ok(0) {
         bad.push((
             format!("C14 {pname}: valid operand rejected or non-zero status"),
@@ -311,7 +320,7 @@ fn run(ctx: &mut Ctx) {
     let js = jobs(ctx.tier);
     ctx.rep.count("find_runs_planned_all_shards", js.len() as u64);
     for (i, job) in js.iter().enumerate() {
-        if !ctx.mine(i as u64) {
+        if !ctx.mine(job.prim_index as u64) {
             continue;
         }
         ctx.progress(i as u64);
